@@ -108,6 +108,20 @@ FILES = [
      {"bitand": LOOP2, "bitor": LOOP2, "bitxor": LOOP2, "not": LOOP2, "eq": LOOP2, "cmp": LOOP2}),
     ("src/bint/const_trait_fillers.rs", "const_trait_fillers", "I",
      ["bitand", "bitor", "bitxor", "not", "eq", "ne", "cmp", "neg", "div", "rem"], {}),
+    ("src/int/ops.rs", "impls", "UI",
+     [("Add<Self> for $Struct<N>::add", "Add_add"), ("Mul for $Struct<N>::mul", "Mul_mul"), ("Not for &$Struct<N>::not", "Not_ref_not"),
+      ("Shl<ExpType> for $Struct<N>::shl", "Shl_ExpType_shl"), ("Shr<ExpType> for $Struct<N>::shr", "Shr_ExpType_shr"),
+      ("Sub for $Struct<N>::sub", "Sub_sub")], {}),
+    ("src/buint/ops.rs", "ops", "U",
+     [("BitAnd for $BUint<N>::bitand", "BitAnd_bitand"), ("BitOr for $BUint<N>::bitor", "BitOr_bitor"),
+      ("BitXor for $BUint<N>::bitxor", "BitXor_bitxor"), ("Div for $BUint<N>::div", "Div_div"),
+      ("Div<$Digit> for $BUint<N>::div", "Div_digit_div"), ("Not for $BUint<N>::not", "Not_not"),
+      ("Rem for $BUint<N>::rem", "Rem_rem"), ("Rem<$Digit> for $BUint<N>::rem", "Rem_digit_rem")],
+     {"Add<$Digit> for $BUint<N>::add": LOOP2, "add_digit": "test-only (a quickcheck property under cfg(test))"}),
+    ("src/bint/ops.rs", "ops", "I",
+     [("Neg for $BInt<N>::neg", "Neg_neg"), ("Neg for &$BInt<N>::neg", "Neg_ref_neg"), ("BitAnd for $BInt<N>::bitand", "BitAnd_bitand"),
+      ("BitOr for $BInt<N>::bitor", "BitOr_bitor"), ("BitXor for $BInt<N>::bitxor", "BitXor_bitxor"), ("Div for $BInt<N>::div", "Div_div"),
+      ("Not for $BInt<N>::not", "Not_not"), ("Rem for $BInt<N>::rem", "Rem_rem")], {}),
     ("src/int/unchecked.rs", "impls", "UI", ["unchecked_add", "unchecked_sub", "unchecked_mul", "unchecked_shl", "unchecked_shr"], {}),
     ("src/buint/mod.rs", "mod_impl", "U",
      ["cast_signed", "rotate_left", "rotate_right", "unbounded_shl", "unbounded_shr", "pow", "div_euclid", "rem_euclid",
@@ -151,6 +165,7 @@ USES = [("src/buint/strict.rs", "crate::int::strict::impls!(U);"), ("src/bint/st
         ("src/buint/const_trait_fillers.rs", "crate::int::cmp::impls!();"), ("src/bint/const_trait_fillers.rs", "crate::int::cmp::impls!();"),
         ("src/buint/const_trait_fillers.rs", "crate::int::ops::trait_fillers!();"), ("src/bint/const_trait_fillers.rs", "crate::int::ops::trait_fillers!();"),
         ("src/buint/bigint_helpers.rs", "crate::int::bigint_helpers::impls!(U);"), ("src/bint/bigint_helpers.rs", "crate::int::bigint_helpers::impls!(I);"),
+        ("src/buint/ops.rs", "crate::int::ops::impls!($BUint, $BUint, $BInt);"), ("src/bint/ops.rs", "crate::int::ops::impls!($BInt, $BUint, $BInt);"),
         ("src/buint/unchecked.rs", "crate::int::unchecked::impls!($BUint, U);"), ("src/bint/unchecked.rs", "crate::int::unchecked::impls!($BInt, I);"),
         ("src/buint/unchecked.rs", "crate::macro_impl!(unchecked);"), ("src/bint/unchecked.rs", "crate::macro_impl!(unchecked);")]
 USES += [(f[0], "crate::macro_impl!(%s);" % f[1]) for f in FILES if f[1] and not f[0].startswith("src/int/")]
@@ -329,6 +344,9 @@ raw("I", "is_positive", "is_positive w {0}", [], "bool")
 raw("I", "signum", "signum w {0}", [], "I")
 raw("SD", "is_positive", "Z.ltb 0 {0}", [], "bool")
 raw("SD", "is_negative", "Z.ltb {0} 0", [], "bool")
+# div_rem_digit on an arbitrary digit: digit::div_rem_wide divides by it (debug_assert!(high < rhs) / the primitive division), so
+# a zero digit panics in both build modes; Model/Div.v div_rem_digit itself is total (see Model/Ops.v U_Div_digit)
+raw("U", "div_rem_digit", "if Z.eqb {1} 0 then Panic else Ret (div_rem_digit w {0} {1})", ["D"], tup("U", "D"), eff=True)
 # u32::checked_sub on ExpType values
 raw("Z", "checked_sub", "if Z.ltb {0} {1} then None else Some (Z.sub {0} {1})", ["Z"], opt("Z"))
 # the receiver type of saturate_up/down's argument is a pair: handled in static calls by the declared first-argument type
@@ -373,7 +391,7 @@ def qual(tmpl):
             if len(MODEL_DEFS[x]) != 1:
                 die("model name %s is defined in several model files: %s" % (x, MODEL_DEFS[x]))
             return MODEL_DEFS[x][0] + "." + x
-        if x in QUAL_SKIP or x in ("bits", "sub", "land", "ltb", "negb", "if", "then", "else", "None", "Some") or x == "Z":
+        if x in QUAL_SKIP or x in ("bits", "sub", "land", "ltb", "eqb", "negb", "if", "then", "else", "None", "Some", "Panic", "Ret") or x == "Z":
             return x
         die("vocabulary names %s, which is not defined in coq/Model/{%s}.v" % (x, ",".join(MODEL_FILES)))
     return re.sub(r"[A-Za-z_][\w']*", f, tmpl)
@@ -544,12 +562,14 @@ class P:
             t = self.type_()
             self.eat(">")
             return ("opt", t)
-        if name in ("$BUint", "$BInt"):
+        if name in ("$BUint", "$BInt", "$Struct", "$Int"):
             if self.peek() == "<":
                 self.eat("<")
                 self.eat("N")
                 self.eat(">")
-            return "U" if name == "$BUint" else "I"
+            return {"$BUint": "U", "$BInt": "I"}.get(name, "Self")      # $Struct / $Int: the type the macro is expanded for
+        if name == "$Digit":
+            return "D"
         if name == "Self":
             return "Self"
         if name in ("ExpType", "u32"):
@@ -1013,7 +1033,7 @@ class Gen:
         return binds, term, ty, eff
 
     def tyname(self, seg):
-        return {"Self": self.S, "$BUint": "U", "$BInt": "I"}.get(seg)
+        return {"Self": self.S, "$BUint": "U", "$BInt": "I", "$Struct": self.S, "$Int": self.S}.get(seg)
 
     def call(self, rty, name, vals, generic=None):
         """vals = [(term, type)] receiver first"""
@@ -1525,6 +1545,8 @@ def main():
         region = macro_region(src, macro, path) if macro else src
         fns = find_fns(region, path)
         names = [f[0] for f in fns]
+        alias = dict((x, x) if isinstance(x, str) else x for x in wanted)       # source key -> name of the generated function
+        wanted = list(alias)
         for wn in wanted:
             if names.count(wn) != 1:
                 die("function %s found %d times in %s" % (wn, names.count(wn), "macro " + macro if macro else "the file"))
@@ -1541,9 +1563,9 @@ def main():
         for S in selfs:
             for f in fns:
                 if f[0] in wanted:
-                    gname = "%s_%s" % (S, f[0])
+                    gname = "%s_%s" % (S, alias[f[0]])
                     try:
-                        gname, text = translate_fn(path, S, *f)
+                        gname, text = translate_fn(path, S, alias[f[0]], *f[1:])
                     except (SystemExit, Exception) as ex:
                         # this function only: a stub, so that only ITS tie lemma (and its property's check) breaks
                         failed[gname] = LAST_MSG[0] if isinstance(ex, SystemExit) else repr(ex)
